@@ -277,6 +277,12 @@ impl Interp {
                 out.push('}');
                 Ok(())
             }
+            V::Out(v) => {
+                out.push_str("IteratorOutput(");
+                self.display_into(v, false, out, parents)?;
+                out.push(')');
+                Ok(())
+            }
             other => {
                 display_plain(other, contained, out, parents);
                 Ok(())
@@ -606,7 +612,7 @@ pub fn eval(ip: Rc<Interp>, e: X, env: Env) -> Fut {
                 let val = match (&t, &**v) {
                     // self-reference: functions created directly in the RHS may capture the
                     // name being assigned (deferred capture)
-                    (Tgt::Id(n), _) if lookup_env(&env, n).is_none() => {
+                    (Tgt::Id(n), _) => {
                         let before = PENDING.with(|p| p.borrow_mut().replace((n.clone(), vec![])));
                         let r = eval(ip.clone(), v.clone(), env.clone()).await;
                         let pending = PENDING.with(|p| std::mem::replace(&mut *p.borrow_mut(), before));
@@ -614,7 +620,9 @@ pub fn eval(ip: Rc<Interp>, e: X, env: Env) -> Fut {
                         if let Some((_, closures)) = pending {
                             for c in closures {
                                 let mut caps = c.captures.borrow_mut();
-                                if !caps.iter().any(|(k, _)| k == n) {
+                                if let Some(slot) = caps.iter_mut().find(|(k, _)| k == n) {
+                                    slot.1 = val.clone();
+                                } else {
                                     caps.push((n.clone(), val.clone()));
                                 }
                             }
@@ -935,6 +943,20 @@ pub fn eval(ip: Rc<Interp>, e: X, env: Env) -> Fut {
             E::Raw(_, inner) => eval(ip.clone(), inner.clone(), env.clone()).await,
         }
     })
+}
+
+/// Closures created inside a called function do not belong to the caller's pending assignment.
+struct PendingGuard(Option<(Name, Vec<Rc<Closure>>)>);
+impl PendingGuard {
+    fn enter() -> Self {
+        PendingGuard(PENDING.with(|p| p.borrow_mut().take()))
+    }
+}
+impl Drop for PendingGuard {
+    fn drop(&mut self) {
+        let saved = self.0.take();
+        PENDING.with(|p| *p.borrow_mut() = saved);
+    }
 }
 
 thread_local! {
@@ -1504,6 +1526,7 @@ fn access_value(ip: Rc<Interp>, av: V, k: &Name) -> Fut {
                     V::Range(..) => "range",
                     V::Int(_) | V::Float(_) => "number",
                     V::Iter(_) => "iterator",
+                    V::Out(_) => "out",
                     _ => return rt("no such member"),
                 };
                 if crate::knative::has_method(module, &k) {
@@ -1724,6 +1747,18 @@ pub fn match_pattern<'a>(
                 let items: Vec<V> = match &v {
                     V::List(l) => l.borrow().clone(),
                     V::Tuple(t) => (**t).clone(),
+                    V::Str(st) => {
+                        if !st.is_ascii() {
+                            return Err(Ctl::Unmodelled("unpacking a non-ASCII string by index".into()));
+                        }
+                        st.chars().map(|c| V::str(&c.to_string())).collect()
+                    }
+                    V::Map(m) if m.meta.borrow().is_none() => m
+                        .entries
+                        .borrow()
+                        .iter()
+                        .map(|(k, val)| V::tuple(vec![k.clone(), val.clone()]))
+                        .collect(),
                     V::Map(m) if m.has_meta("@size") && m.has_meta("@index") => {
                         let sz = call_value(ip.clone(), m.get_meta("@size").unwrap(), vec![], Some(v.clone())).await?;
                         let n = match sz {
@@ -1781,6 +1816,10 @@ pub fn match_pattern<'a>(
                             }
                         }
                         if let Pat::Ellipsis(Some(n)) = &ps[pos] {
+                            if matches!(v, V::Map(_) | V::Str(_)) {
+                                // the guide only documents "captured in a tuple" for sequences
+                                return Err(Ctl::Unmodelled("named ellipsis over a map/string".into()));
+                            }
                             let rest: Vec<V> = items[pos..pos + rest_len].to_vec();
                             let rv = match &v {
                                 V::List(_) => V::list(rest),
@@ -1890,6 +1929,7 @@ pub fn call_value(ip: Rc<Interp>, f: V, args: Vec<V>, this: Option<V>) -> Fut {
         match &f {
             V::Func(c) => {
                 let env = bind_args(ip.clone(), c.clone(), args, this).await?;
+                let _guard = PendingGuard::enter();
                 if c.def.is_gen {
                     // create a suspended generator
                     let slot = Rc::new(RefCell::new(None));
